@@ -77,12 +77,39 @@ pub fn limits_of(l: &Limits) -> limits::Limits {
 }
 
 macro_rules! build {
-    ($builder:expr, $l:expr, $handle:expr, $ep:expr, $seed:expr, $tap:expr, $tls:expr) => {{
-        let io = $handle.builder().with_max_mtu($l.max_mtu).build().unwrap();
+    ($builder:expr, $l:expr, $handle:expr, $ep:expr, $seed:expr, $tap:expr, $tls:expr, $sc:expr) => {{
+        let mut iob = $handle.builder().with_max_mtu($l.max_mtu);
+        if $ep == "c" && !$sc.rebinds.is_empty() {
+            let rebinds = $sc.rebinds.clone();
+            iob = iob.on_socket(move |socket| {
+                io::spawn(async move {
+                    let mut addr = socket.local_addr().unwrap();
+                    for (t, ip) in rebinds {
+                        io::time::delay(Duration::from_micros(t.saturating_sub(now_us()))).await;
+                        addr.set_port(addr.port().wrapping_add(1).max(1024));
+                        if ip {
+                            if let std::net::IpAddr::V4(v4) = addr.ip() {
+                                let o = v4.octets();
+                                addr.set_ip(std::net::IpAddr::V4(std::net::Ipv4Addr::new(o[0], o[1], o[2].wrapping_add(1), o[3])));
+                            }
+                        }
+                        emit(json!({"ev": "rebind", "ep": "c", "addr": addr.to_string(), "ip": ip}));
+                        socket.rebind(addr);
+                    }
+                });
+            });
+        }
+        let io = iob.build().unwrap();
+        let cidf = {
+            let b = s2n_quic::provider::connection_id::default::Format::builder();
+            let b = if $sc.cid_lifetime_s > 0 { b.with_lifetime(Duration::from_secs($sc.cid_lifetime_s)).unwrap() } else { b };
+            b.build().unwrap()
+        };
         let b = $builder
             .with_io(io).unwrap()
             .with_tls($tls).unwrap()
             .with_limits(limits_of($l)).unwrap()
+            .with_connection_id(cidf).unwrap()
             .with_event(rec::Recorder { ep: $ep }).unwrap()
             .with_random(Random::new($seed)).unwrap()
             .with_stateless_reset_token(SrTokens($seed)).unwrap()
@@ -125,7 +152,7 @@ pub fn run(sc: &Scenario, hooks: Hooks) -> Vec<Value> {
 
     let res = std::panic::catch_unwind(std::panic::AssertUnwindSafe(|| {
         executor.enter(|| {
-            let mut server: Server = build!(Server::builder(), &scn.s, handle, "s", scn.seed ^ 0x51, server_tap, (certificates::CERT_PEM, certificates::KEY_PEM));
+            let mut server: Server = build!(Server::builder(), &scn.s, handle, "s", scn.seed ^ 0x51, server_tap, (certificates::CERT_PEM, certificates::KEY_PEM), scn);
             let addr = server.local_addr().unwrap();
             *server_slot.lock().unwrap() = Some(addr);
             {
@@ -136,7 +163,7 @@ pub fn run(sc: &Scenario, hooks: Hooks) -> Vec<Value> {
                     }
                 });
             }
-            let client: Client = build!(Client::builder(), &scn.c, handle, "c", scn.seed ^ 0xc1, client_tap, certificates::CERT_PEM);
+            let client: Client = build!(Client::builder(), &scn.c, handle, "c", scn.seed ^ 0xc1, client_tap, certificates::CERT_PEM, scn);
             let sh = shared.clone();
             primary::spawn(async move {
                 let connect = Connect::new(addr).with_server_name("localhost");
